@@ -68,7 +68,7 @@ def gen_script(rng, allow_result_while_paused):
     waited = False
     n = int(rng.integers(2, 9))
     for _ in range(n):
-        choices = ['get', 'set_q', 'lazy_q', 'set_b']
+        choices = ['get', 'set_q', 'lazy_q', 'set_b', 'bad']
         if pending and (not paused or allow_result_while_paused):
             choices += ['result', 'result']
         if not paused:
@@ -163,6 +163,17 @@ def one_world(seed, scripts, strategy, max_solver_steps=400):
                     tid, cmd, val = pend.pop(0)
                     r = cq.get_result(tid)
                     res = dict(tid=tid, cmd=cmd, val=val, result=r)
+                elif op == 'bad':
+                    # a request the manager rejects by design: the session
+                    # (this thread's and everybody else's) carries on
+                    try:
+                        if W.rng.random() < 0.5:
+                            cq.get('no_such_property')
+                        else:
+                            cb.set('no_such_property', 1)
+                        res = 'accepted'
+                    except RuntimeError:
+                        res = 'rejected'
                 elif op == 'pause':
                     res = cq.pause_on_next()
                 elif op == 'wait':
@@ -370,6 +381,8 @@ def work(item):
             1 for e in log if e[2] == 'cp_enter')
         cnt['commands_executed'] = cnt.get('commands_executed', 0) + sum(
             1 for e in log if e[2] == 'exec')
+        cnt['commands_rejected'] = cnt.get('commands_rejected', 0) + sum(
+            1 for e in log if e[2] == 'ret' and e[3].get('res') == 'rejected')
         if status == 'inconclusive':
             cnt['inconclusive_worlds'] = cnt.get('inconclusive_worlds', 0) + 1
             continue
@@ -417,10 +430,14 @@ def run(tier):
             1, m.evaluations):
         v.inconclusive_because('%d of %d schedules hit the step budget' % (
             m.counters['inconclusive_worlds'], m.evaluations))
+    if m.counters.get('commands_rejected', 0) < 50:
+        v.inconclusive_because('only %d rejected commands in the histories'
+                               % m.counters.get('commands_rejected', 0))
     return harness.finish(
         PROP, tier, 'exploration', m, v, T,
         rule='case = 1-2 interface scripts of 2-8 protocol-respecting calls '
-             '(get, blocking set, queued set / lazy method, get_result, '
+             '(get, blocking set, queued set / lazy method, a request the '
+             'manager rejects, get_result, '
              'pause_on_next, wait, cont) + one solver thread, run under a '
              'controlled scheduler (uniform random / sticky / PCT priorities) '
              'that switches only at synchronisation operations; the recorded '
